@@ -57,6 +57,8 @@ def run(ctx):
     rule_room(ctx, F)
     rule_set(ctx, F)
     rule_keepttl(ctx, F)
+    rule_walk(ctx, F)
+    rule_owner(ctx, F)
     # abandoned work is rolled back (shared rules)
     c09.rule_rbk(ctx, F)
     c09.rule_drop(ctx, F)
@@ -387,3 +389,98 @@ def rule_keepttl(ctx, F):
            "delete_record_from_rrset builds the smaller RRset with the TTL of the record that is deleted: removing "
            "`192.0.2.1` (given with TTL 7200) from an RRset with TTL 300 leaves the other addresses with TTL 7200 -- the zone "
            "differs from one built from the remaining records", b.where(news[0][0]))
+
+
+def rule_walk(ctx, F):
+    """The sender of a full transfer reads the zone with walk().  Walking, ReadZone::query_node_here_and_below has to
+    go on into the children of every node that is not a zone cut -- whatever the node's own state (ordinary, CNAME
+    owner, "no records here" marker) -- and at a cut it hands out the delegation data.  Decided per match arm on the
+    paths taken when walk.enabled() is true (must-pass-through)."""
+    from mirlib import BranchFacts
+    R = "C10.walk"
+    ctx.floor(R, 4)
+    bs = [b for p, b in F.bodies.items()
+          if re.search(r"^zonetree::in_memory::read::ReadZone::query_node_here_and_below(::<.*>)?::\{closure#0\}$", p)]
+    if not ctx.anchor(R, "ReadZone::query_node_here_and_below (match on the node's special state)", len(bs) == 1):
+        return
+    b = bs[0]
+    bf = BranchFacts(b, F)
+    nonwalk = set()
+    for s2 in b.reachable_blocks():
+        t2 = b.blocks[s2]["t"]
+        if t2["k"] != "switch":
+            continue
+        d = deep_strip(b.term_of_operand(t2["d"]))
+        if d[0] == "call" and (d[1] or "").endswith("WalkState::enabled"):
+            for s3, l3 in b.succs(s2):
+                ef = bf.edge_facts(s2).get(l3)
+                if ef and ef[1] is False:
+                    nonwalk.add((s2, l3))
+    if not ctx.anchor(R, "tests of walk.enabled() in query_node_here_and_below", len(nonwalk) >= 2, b.where()):
+        return
+    rets = [i for i in b.reachable_blocks() if b.blocks[i]["t"]["k"] == "ret" and not b.blocks[i].get("c")]
+    kids = [bb for bb, _ in b.calls_matching(r"ReadZone::query_children(::<.*>)?$")]
+    ops = [bb for bb, _ in b.calls_matching(r"WalkState::op$")]
+    arms = {}
+    for sw in sorted(b.reachable_blocks()):
+        if b.blocks[sw]["t"]["k"] != "switch":
+            continue
+        for lab, (tt, vv) in bf.edge_facts(sw).items():
+            if isinstance(vv, tuple) and vv[0] == "variant":
+                # only the match on the node's state (the closure's parameter), not tests of parts of it (cut.ds ..)
+                subj = deep_strip(tt)
+                while subj[0] in ("downcast", "deref", "ref"):
+                    subj = deep_strip(subj[1])
+                if subj[0] == "field" and subj[1][0] == "downcast":
+                    # Some(Special::X): payload of the option
+                    inner = subj[1][1]
+                    while inner[0] in ("downcast", "deref", "ref"):
+                        inner = deep_strip(inner[1])
+                    subj = inner
+                if subj[0] != "arg":
+                    continue
+                arms.setdefault(vv[1], []).append(b.edge_target(sw, lab))
+    want = {"NxDomain": (kids, "descends into the children (an empty non-terminal has names below it)"),
+            "Cname": (kids, "descends into the children (records below a CNAME owner are part of the zone)"),
+            "None": (kids, "descends into the children"),
+            "Cut": (ops, "hands out the delegation's NS (DS, glue) records")}
+    for v, (vias, what) in want.items():
+        tg = arms.get(v, [])
+        if not ctx.anchor(R, "the %s arm" % v, bool(tg) and bool(vias), b.where()):
+            continue
+        bad = None
+        for tgt in tg:
+            holds, p = must_pass(b, tgt, rets, vias, removed_edges=nonwalk)
+            if not holds:
+                bad = p
+        ctx.ob(R, b, "walking: %s -> %s" % (v, what), bad is None,
+               "walking the zone (the source of a full transfer), the %s arm of query_node_here_and_below can return without "
+               "%s: path %s -- the transfer silently leaves out part of the zone that queries still answer"
+               % (v, "calling query_children" if vias is kids else "walk.op", fmt_path(bad)), b.where(tg[0]))
+
+
+def rule_owner(ctx, F):
+    """The difference set is recorded per owner name.  A child node's owner is its label in front of the owner its
+    *parent* records under (WriteNode::update_child hands `(owner, diff)` on); built from anything else -- the zone
+    apex, say -- every change two or more labels below the apex is recorded under a wrong name."""
+    R = "C10.owner"
+    ctx.floor(R, 2)
+    cl = [b for p, b in F.bodies.items() if re.search(r"^zonetree::in_memory::write::WriteNode::update_child::\{closure#\d+\}$", p)
+          and b.calls_matching(r"NameBuilder::<.*>::append_origin$")]
+    if not ctx.anchor(R, "the closure of WriteNode::update_child that builds the child's owner name", len(cl) == 1):
+        return
+    b = cl[0]
+    for bb, t in b.calls_matching(r"NameBuilder::<.*>::append_origin$"):
+        tm = deep_strip(b.term_of_operand(t["args"][1]))
+        roots = {s[1] for s in walk(tm) if s[0] == "arg"}
+        calls = [s[1] for s in walk(tm) if s[0] == "call" and s[1] and not re.search(r"::(clone|as_ref|deref|borrow)$", s[1])]
+        ctx.ob(R, b, "the child's owner ends with the owner its parent records under", roots == {2} and not calls,
+               "update_child appends %s as origin of the child's owner name instead of the owner name that came with the parent's "
+               "diff handle: the commit diff (and an IXFR served from it) names records below a non-apex node wrongly, so the "
+               "difference applied to the old content does not give the new content" % show(tm)[:120], b.where(bb))
+    for bb, t in b.calls_matching(r"NameBuilder::<.*>::append_label$"):
+        tm = deep_strip(b.term_of_operand(t["args"][1]))
+        roots = {s[1] for s in walk(tm) if s[0] == "arg"}
+        ctx.ob(R, b, "the child's owner starts with the child's label", roots == {1},
+               "update_child builds the child's owner name from %s, not from the label of the child (a captured value)"
+               % show(tm)[:120], b.where(bb))
